@@ -24,6 +24,14 @@ CLAIMED = {
              "a baseline run is compared byte-for-byte with runs under drawn perturbations of locale, TZ, malloc behaviour, environment size, ASLR, cwd, "
              "input/output channel, stack limit and compiler build (gcc plain/hook, clang ASan); an MSan build checks for uninitialised reads. Exploration level.",
         note="Only locales present in the sandbox can take effect; MALLOC_PERTURB_/MSan are the detectors for uninitialised memory; inputs that crash the compiler are left to C19."),
+    "C03": dict(
+        category="exploration", design_ref="DESIGN.md 3/C03, 2.2",
+        engine="hypothesis+enumeration",
+        technique="generated-input search with an independent QBE IL validator as oracle (parser + SSA/dominance/class/phi/call checks), differential data size/alignment against clang --target objects, RLIMIT_FSIZE write-fault injection",
+        text="Every module cproc-qbe emits with status 0 for corpus files, its own sources, compiling token-mutants and generated programs on the "
+             "three targets is parsed and validated by vlib/ilcheck.py; data definitions are compared in size/alignment with the C object as laid "
+             "out by clang; output-failure injection checks that status 0 is only returned with the complete output. Exploration level.",
+        note="ilcheck.py is written from QBE's IL reference, not run against QBE itself (QBE is not installed); rules are permissive where QBE's behaviour is uncertain."),
 }
 
 NOT_YET = "check not built yet in this round (planned per DESIGN.md section 10); no claim is made"
